@@ -95,6 +95,7 @@ class C03(Spec):
                 tasks_core.core_tasks(root, 2 * _tmo(tier), which=("iter_errors", "is_valid", "descend", "validate", "is_type")) +
                 tasks_resolver.resolver_tasks(root, 2 * _tmo(tier), which=("resolve_fragment", "resolve_from_url", "resolve", "ref_keyword")) +
                 __import__("contracts.tasks_utils", fromlist=["x"]).util_tasks(root, _tmo(tier)) +      # equal / uniq behind enum, const, uniqueItems
+                tasks_core.core_tasks(root, _tmo(tier), which=("iter_errors_x", "ref_x")) + [tasks_core.CoreTask(root, 7, "scope_cm_x", _tmo(tier))] +      # an unbalanced scope stack raises (IndexError / a bogus RefResolutionError) in a later call
                 [t for t in __import__("contracts.tasks_entry", fromlist=["x"]).entry_tasks(root, _tmo(tier)) if t.which in ("relevance", "best_match", "module_validate")])
 
     def select(self, ob, r):
@@ -102,7 +103,7 @@ class C03(Spec):
             return True       # "only RefResolutionError escapes"
         if r["task"].startswith("entry:relevance"):
             return True
-        return ob["kind"] in ("S", "P")
+        return ob["kind"] in ("S", "P", "X")
 
     def failure_kinds(self):
         return ("S",)
@@ -154,7 +155,8 @@ class C09(Spec):
     explanation = "Deductive: the six numeric keyword functions are proved against the mathematical order / divisibility over unbounded integers and axiomatised doubles, with every exception edge (OverflowError, ZeroDivisionError, TypeError) shown unreachable."
 
     def tasks(self, root, tier):
-        return [t for t in tasks_keywords.keyword_tasks(root, _tmo(tier)) if t.k in self.KW]
+        # every numeric keyword first asks is_type(instance, "number"): its contract (proved through the real _types functions) is part of the chain
+        return [t for t in tasks_keywords.keyword_tasks(root, _tmo(tier)) if t.k in self.KW] + tasks_core.core_tasks(root, _tmo(tier), which=("is_type",))
 
     def select(self, ob, r):
         return ob["kind"] in ("F", "S", "P")
@@ -251,14 +253,16 @@ class C05(Spec):
     explanation = "Each keyword function's result sequence is proved equal to its expected comprehension (yield sites, loop ranges, guards, arguments of descend), the dispatch loop to the concatenation over the schema's members; read frames show no keyword consults a non-sibling key, write frames that no keyword function writes anything but the errors and lists it created."
 
     def tasks(self, root, tier):
+        # not / if / contains / oneOf / disallow consult sub-validations through is_valid(), which abandons the generator at
+        # the first error: the exit-path obligations keep the resolver state of the sibling keywords intact
         return (tasks_keywords.keyword_tasks(root, _tmo(tier)) +
-                tasks_core.core_tasks(root, 2 * _tmo(tier), which=("iter_errors",)))
+                tasks_core.core_tasks(root, 2 * _tmo(tier), which=("iter_errors",)) + tasks_core.core_tasks(root, _tmo(tier), which=("iter_errors_x", "ref_x")) + [tasks_core.CoreTask(root, 7, "scope_cm_x", _tmo(tier))])
 
     def select(self, ob, r):
-        return "/F/structure" in ob["name"] or ob["kind"] == "P"
+        return "/F/structure" in ob["name"] or ob["kind"] in ("P", "X")
 
     def failure_kinds(self):
-        return ("F",)
+        return ("F", "X", "H")
 
     def table_obligations(self, repo, tabs):
         w, _ = write_frame_obligations(repo, tabs, VALIDATION_ROOTS, VALIDATION_WRITES, "validation")
@@ -408,12 +412,13 @@ class C07(Spec):
 
     def tasks(self, root, tier):
         from contracts import tasks_resolver
+        from contracts import tasks_derive
         return (tasks_core.core_tasks(root, _tmo(tier), which=("iter_errors_x", "ref_x", "is_valid", "validate")) +
-                [tasks_core.CoreTask(root, 7, "scope_cm_x", _tmo(tier))] +
+                [tasks_core.CoreTask(root, 7, "scope_cm_x", _tmo(tier))] + tasks_derive.uridict_tasks(root, _tmo(tier)) +      # the store's keys
                 tasks_resolver.resolver_tasks(root, 2 * _tmo(tier), which=("resolve_remote", "resolve_from_url", "resolve", "scopes")))
 
     def select(self, ob, r):
-        if r["task"].startswith("validators:RefResolver."):
+        if r["task"].startswith(("validators:RefResolver.", "uridict:")):
             return True
         return ob["kind"] in ("X", "P", "S")
 
@@ -553,6 +558,8 @@ class C11(Spec):
     def select(self, ob, r):
         if r["task"].startswith(("entry:", "uridict:")):
             return True
+        if r["task"].startswith("_utils:"):
+            return True       # incl. S: nothing but SchemaError may come out of check_schema
         return ob["kind"] in ("F", "P", "L") and "/F/structure" not in ob["name"]
 
     def failure_kinds(self):
@@ -890,7 +897,7 @@ class C02(Spec):
         from contracts import tasks_resolver
         from contracts import tasks_derive
         return (tasks_resolver.resolver_tasks(root, 2 * _tmo(tier), which=RESOLVER_ALL) + tasks_derive.uridict_tasks(root, _tmo(tier)) +
-                tasks_core.core_tasks(root, 2 * _tmo(tier), which=("iter_errors",)))
+                tasks_core.core_tasks(root, 2 * _tmo(tier), which=("iter_errors",)) + tasks_core.core_tasks(root, _tmo(tier), which=("iter_errors_x", "ref_x")) + [tasks_core.CoreTask(root, 7, "scope_cm_x", _tmo(tier))])
 
     def select(self, ob, r):
         if r["task"].startswith(("validators:RefResolver.", "uridict:")):
